@@ -34,6 +34,11 @@ with ThreadPoolExecutor(max_workers=7) as ex:
                 bad += 1
                 print(os.path.basename(d0), "VIOLATION on a behaviour-preserving variant", out)
             continue
+        try:
+            allowed = set(json.load(open(os.path.join(d0, "meta.json"))).get("other_checks_undecided", []))
+        except Exception:
+            allowed = set()
+        out = {k: v for k, v in out.items() if not (k in allowed and isinstance(v, tuple) and v[0] == 2)}  # recorded: another property's check is UNDECIDED on this variant
         if out:
             bad += 1
             print(os.path.basename(d0), out)
